@@ -113,6 +113,7 @@ class Ctx:
         self._nontrivial = set()
         self.known = self._load_known()
         self._harness_copy = None
+        self.missing_gates = []
         shutil.rmtree(os.path.join(VERIF, "evidence", "replays", pid), ignore_errors=True)
 
     # ------------------------------------------------------------------ basics
@@ -323,9 +324,12 @@ class Ctx:
         os.makedirs(outdir)
         p = self.run([bin_, "-repo", REPO, "-out", outdir] + list(args), timeout=timeout)
         try:
-            return json.loads(p.stdout.strip().splitlines()[-1])
+            m = json.loads(p.stdout.strip().splitlines()[-1])
         except Exception:
             raise InfraError("overlaygen output unparsable: %s" % p.stdout[-2000:])
+        miss = m.pop("_missing_gates", "")
+        self.missing_gates = [g for g in miss.split(";") if g]
+        return m
 
     def go_build(self, cmd, tags=("verif",), overlay=None, timeout=1500, pkg=None, out=None):
         """Build harness/cmd/<cmd> (or arbitrary pkg path) with the overlay; returns binary path."""
